@@ -1,6 +1,6 @@
 import Gen.Layout
 import Props.C02
-import Bridge.Symbolic
+import Bridge.Basic
 /-!
   Bridge between the layout code GENERATED from `pydsdl/_serializable/_array.py` and `_composite.py`
   (`Gen/Layout.lean`, rewritten by `tools/py2lean.py` from the working tree of /repo on every run) and the hand-written
